@@ -64,7 +64,9 @@ ArrLike(T, r) == IF Kd(T, r) = "array" THEN TRUE
 RECURSIVE ArrItems(_, _)
 RECURSIVE CatArr(_, _, _)
 CatArr(T, ss, i) == IF i > Len(ss) THEN <<>> ELSE (IF ArrLike(T, ss[i]) THEN ArrItems(T, ss[i]) ELSE <<>>) \o CatArr(T, ss, i + 1)
-ArrItems(T, r) == IF Kd(T, r) = "array" THEN T[r].items
+\* An array node may carry idx = k > 0: its reader was read k times BEFORE it was handed to Merge / Copy (the pre-reader's calls are recv
+\* events at the array's node id and see the whole array); what it contributes as a SOURCE is arr[index:].
+ArrItems(T, r) == IF Kd(T, r) = "array" THEN DropN(T[r].items, T[r].idx)
                   ELSE IF Kd(T, r) = "child" THEN DropN(ArrItems(T, Src1(T, Src1(T, r))), T[Src1(T, r)].idx)   \* arr, index of the source at Copy time
                   ELSE CatArr(T, Src(T, r), 1)
 
@@ -142,7 +144,7 @@ ReadElem(M, T, r) == LET p == Src1(T, r)  it == M.fetched[p][M.cur[r]] IN
 RECURSIVE Rv(_, _, _, _)
 Rv(M, T, r, a) ==
   IF ArrLike(T, r) THEN
-     LET its == ArrItems(T, r)  i == M.apos[r] IN
+     LET its == IF Kd(T, r) = "array" THEN T[r].items ELSE ArrItems(T, r)  i == M.apos[r] IN
      IF i <= Len(its) THEN {Out("val", its[i], [M EXCEPT !.apos[r] = i + 1])} ELSE {Out("val", EOFV, M)}
   ELSE IF Kd(T, r) = "pipe" THEN ChanRecv(M, T, r)
   ELSE IF Kd(T, r) = "child" THEN
@@ -232,7 +234,10 @@ RootSeq(G, T, p, complete) == IF Kd(T, p) = "array" THEN T[p].items ELSE IF comp
 \* a path through a panicking convert: the merged reader may see the end of that source before the writer's sends have returned, and what
 \* the path lets through is cut at the panic anyway, so the offered sequence is the base also for the complete-at-EOF check
 PanicPath(T, q) == \E i \in 1..Len(q) : Kd(T, q[i]) = "conv" /\ T[q[i]].n > 0
-Views(G, T, r, complete) == [q \in PathsFrom(T, r) |-> ViewOf(T, q, Len(q) - 1, RootSeq(G, T, q[Len(q)], complete /\ ~PanicPath(T, q)), G.got)]
+RootBase(G, T, q, complete) == LET p == q[Len(q)] IN
+                               IF Kd(T, p) = "array" /\ Len(q) > 1 THEN DropN(T[p].items, T[p].idx)     \* an array read before it became a source
+                               ELSE RootSeq(G, T, p, complete /\ ~PanicPath(T, q))
+Views(G, T, r, complete) == [q \in PathsFrom(T, r) |-> ViewOf(T, q, Len(q) - 1, RootBase(G, T, q, complete), G.got)]
 \* s is an interleaving of prefixes of the sequences V[i] (of the whole sequences when complete)
 RECURSIVE Shuf(_, _, _)
 Shuf(s, V, complete) ==
